@@ -4,7 +4,7 @@
 (* of callbacks actually invoked (user callbacks and node handlers) with their arguments.        *)
 EXTENDS Net, Json, IOUtils
 
-NInit(t) == [subs |-> (LssId :> <<LssCb>>), nodes |-> [i \in {} |-> 0], scan |-> <<>>]
+NInit(t) == [subs |-> (LssId :> <<LssCb>>), nodes |-> [i \in {} |-> 0], scan |-> <<>>, per |-> <<>>]
 NShow(st) == st
 
 Bad(st, why) == [ok |-> FALSE, why |-> why, st |-> st]
@@ -25,6 +25,19 @@ Check(st, e, new) ==
     ELSE IF ~NodesMatch(new.nodes, e.nodes) THEN Bad(st, "network.nodes differs after " \o e.e)
     ELSE IF new.scan # e.scan THEN Bad(st, "scanner.nodes differs after " \o e.e)
     ELSE Good(new)
+
+\* raw periodic API: per[h] is what task h was given last; the bus holds exactly one running task per
+\* live handle, carrying that id / data (its own copy and the message object) / flags / period
+PerMatch(per, logged) ==
+    /\ Len(logged) = Len(per)
+    /\ \A h \in 1..Len(per) :
+         IF per[h].live
+         THEN /\ logged[h].n = 1 /\ logged[h].id = per[h].id /\ logged[h].frozen = per[h].d /\ logged[h].cur = per[h].d
+              /\ logged[h].rtr = per[h].remote /\ logged[h].ext = Extended(per[h].id) /\ logged[h].period = per[h].period
+         ELSE logged[h].n = 0
+CheckPer(st, e, new) ==
+    IF ~PerMatch(new.per, e.per) THEN Bad(st, "periodic task on the bus is not exactly one running task with the id, data, flags and period given last (" \o e.e \o ")")
+    ELSE Check(st, e, new)
 
 Expected(subs, id, d, ts) == [i \in 1..Len(SubsOf(subs, id)) |-> <<SubsOf(subs, id)[i], id, d, ts>>]
 
@@ -94,6 +107,11 @@ NStep(st, e, t) ==
              THEN Bad(st, "extended frame format not used exactly for ids above 0x7FF")
            ELSE Check(st, e, st)
       [] e.e = "scanreset" -> Check(st, e, [st EXCEPT !.scan = <<>>])
+      [] e.e = "pstart" ->
+           IF e.h # Len(st.per) + 1 THEN Bad(st, "harness: handle numbering")
+           ELSE CheckPer(st, e, [st EXCEPT !.per = Append(st.per, [id |-> e.id, d |-> e.d, remote |-> e.remote, period |-> e.period, live |-> TRUE])])
+      [] e.e = "pupdate" -> CheckPer(st, e, [st EXCEPT !.per[e.h].d = e.d])
+      [] e.e = "pstop" -> CheckPer(st, e, [st EXCEPT !.per[e.h].live = FALSE])
       [] OTHER -> Bad(st, "unknown event")
 
 TraceFile == JsonDeserialize(IOEnv.TRACE_FILE)
